@@ -468,5 +468,556 @@ theorem svLoop_acceptAll_ge :
 
 end compare
 
+/-! ### what a candidate route is -/
+
+/-- contiguous walk `u ⇝ v` in *graph orientation* over the edge list: every edge id is in range,
+each edge leaves where the previous one arrived -/
+def GWalk (edges : List (EdgeRec α)) : Nat → List Nat → Nat → Prop
+  | u, [], v => u = v
+  | u, e :: es, v => ∃ er, edges[e]? = some er ∧ er.src = u ∧ GWalk edges er.dst es v
+
+theorem GWalk.append {edges : List (EdgeRec α)} :
+    ∀ {es fs : List Nat} {u v w : Nat}, GWalk edges u es v → GWalk edges v fs w →
+      GWalk edges u (es ++ fs) w
+  | [], _, u, v, w, h, h' => by
+    simp only [GWalk] at h
+    subst h
+    exact h'
+  | e :: es, _, u, v, w, h, h' => by
+    obtain ⟨er, h1, h2, h3⟩ := h
+    exact ⟨er, h1, h2, GWalk.append h3 h'⟩
+
+theorem GWalk.single {edges : List (EdgeRec α)} {e : Nat} {er : EdgeRec α}
+    (h : edges[e]? = some er) : GWalk edges er.src [e] er.dst :=
+  ⟨er, h, rfl, rfl⟩
+
+/-- instance orientation of the forward configuration -/
+theorem fwd_termV (c : Config α) {e : Nat} {er : EdgeRec α} (h : c.edges[e]? = some er) :
+    c.fwd.inst.termV e = er.src ∧ c.fwd.inst.keyV e = er.dst := by
+  simp [Config.inst, Config.fwd, h]
+
+/-- instance orientation of the reverse configuration -/
+theorem rev_termV (c : Config α) (g : List α) {e : Nat} {er : EdgeRec α}
+    (h : c.edges[e]? = some er) :
+    (c.rev g).inst.termV e = er.dst ∧ (c.rev g).inst.keyV e = er.src := by
+  simp [Config.inst, Config.rev, h]
+
+/-- a successful edge traversal names an edge of the edge list -/
+theorem edge_of_traversal {c : Config α} {e : Nat} {le : Option Nat} {st : List α}
+    {r : α × α × List α} (h : edgeTraversal c e le st = .ok r) : ∃ er, c.edges[e]? = some er := by
+  unfold edgeTraversal at h
+  split at h
+  · cases h
+  · rename_i er her; exact ⟨er, her⟩
+
+/-- a walk in the forward search direction is a walk in graph orientation -/
+theorem gwalk_of_fwd_walk (c : Config α) {ok : Nat → Bool} :
+    ∀ {es : List Nat} {u v : Nat}, SearchOpt.Walk c.fwd.inst ok u es v →
+      (∀ e ∈ es, ∃ er, c.edges[e]? = some er) → GWalk c.edges u es v
+  | [], u, v, h, _ => h
+  | e :: es, u, v, h, hex => by
+    obtain ⟨_, _, h3, h4⟩ := h
+    obtain ⟨er, her⟩ := hex e List.mem_cons_self
+    obtain ⟨ht, hk⟩ := fwd_termV c her
+    rw [ht] at h3
+    rw [hk] at h4
+    exact ⟨er, her, h3, gwalk_of_fwd_walk c h4 (fun e' he' => hex e' (List.mem_cons_of_mem _ he'))⟩
+
+/-- a walk in the reverse search direction, read backwards, is a walk in graph orientation -/
+theorem gwalk_of_rev_walk (c : Config α) (g : List α) {ok : Nat → Bool} :
+    ∀ {es : List Nat} {u v : Nat}, SearchOpt.Walk (c.rev g).inst ok u es v →
+      (∀ e ∈ es, ∃ er, c.edges[e]? = some er) → GWalk c.edges v es.reverse u
+  | [], u, v, h, _ => by simp only [SearchOpt.Walk] at h; subst h; rfl
+  | e :: es, u, v, h, hex => by
+    obtain ⟨_, _, h3, h4⟩ := h
+    obtain ⟨er, her⟩ := hex e List.mem_cons_self
+    obtain ⟨ht, hk⟩ := rev_termV c g her
+    rw [ht] at h3
+    rw [hk] at h4
+    have ih := gwalk_of_rev_walk c g h4 (fun e' he' => hex e' (List.mem_cons_of_mem _ he'))
+    rw [List.reverse_cons]
+    have := GWalk.single her
+    rw [h3] at this
+    exact GWalk.append ih this
+
+/-- the state and costs of a list of route elements are the forward re-accumulation from a given
+previous edge and state: each element is `EdgeTraversal::forward_traversal` of its edge from the
+element before it -/
+def Reaccumulated (cf : Config α) : Option Nat → List α → List (Branch α) → Prop
+  | _, _, [] => True
+  | prev, st, b :: bs =>
+    edgeTraversal cf b.edge prev st = .ok (b.access, b.traversal, b.state) ∧
+    Reaccumulated cf (some b.edge) b.state bs
+
+theorem retraverse_spec (cf : Config α) :
+    ∀ (es : List Nat) (prev : Option Nat) (st : List α) (r : List (Branch α)),
+      retraverse cf es prev st = .ok r → r.map (·.edge) = es ∧ Reaccumulated cf prev st r
+  | [], prev, st, r, h => by
+    simp only [retraverse] at h
+    cases h
+    exact ⟨rfl, trivial⟩
+  | e :: es, prev, st, r, h => by
+    unfold retraverse at h
+    split at h
+    · cases h
+    · rename_i ac tc st' htr
+      split at h
+      · cases h
+      · rename_i restr hrest
+        cases h
+        obtain ⟨h1, h2⟩ := retraverse_spec cf es (some e) st' restr hrest
+        exact ⟨by simp [h1], htr, h2⟩
+
+/-- every edge of a re-accumulated list is in the edge list -/
+theorem Reaccumulated.edges_exist {cf : Config α} :
+    ∀ {r : List (Branch α)} {prev : Option Nat} {st : List α}, Reaccumulated cf prev st r →
+      ∀ b ∈ r, ∃ er, cf.edges[b.edge]? = some er
+  | [], _, _, _, b, hb => by simp at hb
+  | x :: xs, _, _, h, b, hb => by
+    rcases List.mem_cons.1 hb with rfl | hb
+    · exact edge_of_traversal h.1
+    · exact Reaccumulated.edges_exist h.2 b hb
+
+/-- the last edge and state a route hands to what follows it -/
+def lastEdge (r : List (Branch α)) : Option Nat := r.getLast?.map (·.edge)
+
+def lastState (cf : Config α) (r : List (Branch α)) : List α :=
+  match r.getLast? with
+  | some l => l.state
+  | none => initialState cf.feats
+
+/-- **shape of a candidate**: the forward backtrack to the intersection vertex, followed by the
+reverse backtrack read backwards and re-traversed forwards from the forward half's last edge and
+state -/
+theorem svCandidate_spec {cf : Config α} {source target : Nat} {fwd rev : SState α} {v : Nat}
+    {this : List (Branch α)} (h : svCandidate cf source target fwd rev v = .ok this) :
+    ∃ fwdRoute revBack revRoute,
+      backtrack source v fwd.sol (fwd.solSize + 1) = .ok fwdRoute ∧
+      backtrack target v rev.sol (rev.solSize + 1) = .ok revBack ∧
+      this = fwdRoute ++ revRoute ∧
+      revRoute.map (·.edge) = (revBack.map (·.edge)).reverse ∧
+      Reaccumulated cf (lastEdge fwdRoute) (lastState cf fwdRoute) revRoute := by
+  unfold svCandidate at h
+  split at h
+  · cases h
+  · rename_i fwdRoute hf
+    split at h
+    · cases h
+    · rename_i revBack hr
+      split at h
+      · cases h
+      · rename_i revRoute hre
+        cases h
+        refine ⟨fwdRoute, revBack, revRoute, hf, hr, rfl, ?_⟩
+        unfold reorient at hre
+        split at hre
+        · rename_i hlast
+          obtain ⟨h1, h2⟩ := retraverse_spec cf _ _ _ _ hre
+          refine ⟨by rw [h1, List.map_reverse], ?_⟩
+          simpa [lastEdge, lastState, hlast] using h2
+        · rename_i last hlast
+          obtain ⟨h1, h2⟩ := retraverse_spec cf _ _ _ _ hre
+          refine ⟨by rw [h1, List.map_reverse], ?_⟩
+          simpa [lastEdge, lastState, hlast] using h2
+
+/-! ### the loop test -/
+
+theorem srcVertices_spec (cf : Config α) :
+    ∀ (r : List (Branch α)) (vs : List Nat), srcVertices cf r = .ok vs →
+      vs.length = r.length ∧
+      ∀ b ∈ r, ∃ er, cf.edges[b.edge]? = some er ∧ er.src ∈ vs
+  | [], vs, h => by
+    simp only [srcVertices] at h
+    cases h
+    exact ⟨rfl, fun b hb => by simp at hb⟩
+  | x :: xs, vs, h => by
+    unfold srcVertices at h
+    split at h
+    · cases h
+    · rename_i er her
+      split at h
+      · cases h
+      · rename_i vs' hvs'
+        cases h
+        obtain ⟨h1, h2⟩ := srcVertices_spec cf xs vs' hvs'
+        refine ⟨by simp [h1], ?_⟩
+        intro b hb
+        rcases List.mem_cons.1 hb with rfl | hb
+        · exact ⟨er, her, List.mem_cons_self⟩
+        · obtain ⟨er', h3, h4⟩ := h2 b hb
+          exact ⟨er', h3, List.mem_cons_of_mem _ h4⟩
+
+/-- pairwise distinct source vertices: no edge occurs twice either -/
+theorem srcVertices_nodup_edges (cf : Config α) :
+    ∀ (r : List (Branch α)) (vs : List Nat), srcVertices cf r = .ok vs → vs.Nodup →
+      (r.map (·.edge)).Nodup
+  | [], _, _, _ => by simp
+  | x :: xs, vs, h, hnd => by
+    unfold srcVertices at h
+    split at h
+    · cases h
+    · rename_i er her
+      split at h
+      · cases h
+      · rename_i vs' hvs'
+        cases h
+        rw [List.nodup_cons] at hnd
+        rw [List.map_cons, List.nodup_cons]
+        refine ⟨?_, srcVertices_nodup_edges cf xs vs' hvs' hnd.2⟩
+        intro hmem
+        obtain ⟨b, hb, hbe⟩ := List.mem_map.1 hmem
+        obtain ⟨er', h3, h4⟩ := (srcVertices_spec cf xs vs' hvs').2 b hb
+        rw [hbe, her] at h3
+        cases h3
+        exact hnd.1 h4
+
+/-- `route_contains_loop = false`: the source vertices of the route's edges are pairwise distinct -/
+theorem routeContainsLoop_false {cf : Config α} {r : List (Branch α)}
+    (h : routeContainsLoop cf r = .ok false) :
+    ∃ vs, srcVertices cf r = .ok vs ∧ vs.Nodup ∧ (r.map (·.edge)).Nodup := by
+  unfold routeContainsLoop at h
+  split at h
+  · cases h
+  · rename_i vs hvs
+    simp only [Except.ok.injEq] at h
+    have hnd := (hasDup_false_iff vs).1 h
+    exact ⟨vs, hvs, hnd, srcVertices_nodup_edges cf r vs hvs hnd⟩
+
+/-! ### the two trees -/
+
+/-- what the two underlying runs establish about their trees -/
+structure Trees (c : Config α) (g : List α) (source target : Nat) (fwd rev : SState α) : Prop where
+  fwd_inv : TreeInv c.fwd.inst source fwd
+  rev_inv : TreeInv (c.rev g).inst target rev
+  fwd_edges : ∀ v b, fwd.sol v = some b → ∃ er, c.edges[b.edge]? = some er
+  rev_edges : ∀ v b, rev.sol v = some b → ∃ er, c.edges[b.edge]? = some er
+  target_entry : (fwd.sol target).isSome
+
+/-- two successful underlying runs between distinct vertices give `Trees` -/
+theorem trees_of_runs (c : Config α) (g : List α) (hf : c.fwd.AdjConsistent)
+    (hr : (c.rev g).AdjConsistent) {source target : Nat} (hts : target ≠ source)
+    {fs rs : List Nat} {fres rres : SearchResult α}
+    (h1 : runVertexOriented c.fwd.inst source (some target) fs = .ok fres)
+    (h2 : runVertexOriented (c.rev g).inst target (some source) rs = .ok rres) :
+    Trees c g source target fres.final rres.final := by
+  obtain ⟨hinvF, hent, _⟩ :=
+    SearchTree.runVertexOriented_route (c.fwd.inst_wf hf) source target fs fres hts h1
+  obtain ⟨hinvR, _, _⟩ :=
+    SearchTree.runVertexOriented_route ((c.rev g).inst_wf hr) target source rs rres
+      (fun h => hts h.symm) h2
+  have hvF := SearchRoute.runAStar_validInv _ _ _ _ _ (SearchRoute.runVertexOriented_some h1).1
+  have hvR := SearchRoute.runAStar_validInv _ _ _ _ _ (SearchRoute.runVertexOriented_some h2).1
+  refine ⟨hinvF, hinvR, ?_, ?_, hent⟩
+  · intro v b hb
+    obtain ⟨st, le, _, htr⟩ := hvF v b hb
+    exact edge_of_traversal (c := c.fwd) htr
+  · intro v b hb
+    obtain ⟨st, le, _, htr⟩ := hvR v b hb
+    exact edge_of_traversal (c := c.rev g) htr
+
+/-- the `terminal` vertices along a parent chain are pairwise distinct -/
+theorem pathTo_terminals_nodup {I : Inst α} {source : Nat} {s : SState α}
+    (hinv : TreeInv I source s) {t : Nat} {r : List (Branch α)}
+    (h : PathTo source s.sol t r) : (r.map (·.terminal)).Nodup := by
+  induction h with
+  | nil => simp
+  | @snoc v b r hv hb hr ih =>
+    rw [List.map_append, List.nodup_append]
+    refine ⟨ih, by simp, ?_⟩
+    intro x hx y hy
+    simp only [List.map_cons, List.map_nil, List.mem_singleton] at hy
+    subst hy
+    obtain ⟨b', hb', rfl⟩ := List.mem_map.1 hx
+    have hent := (SearchTree.pathTo_entry hinv hr b' hb').1
+    have h1 : SearchTree.LabelLt s b'.terminal (I.keyV b'.edge) :=
+      SearchTree.parent_label_lt hinv hent
+    rcases SearchTree.pathTo_label hinv hr b' hb' with h2 | h2
+    · rw [h2] at h1; exact h1.ne
+    · exact (h1.trans h2).ne
+
+theorem srcVertices_eq (cf : Config α) (f : Branch α → Nat) :
+    ∀ (r : List (Branch α)), (∀ b ∈ r, ∃ er, cf.edges[b.edge]? = some er ∧ er.src = f b) →
+      srcVertices cf r = .ok (r.map f)
+  | [], _ => rfl
+  | x :: xs, h => by
+    obtain ⟨er, her, hsrc⟩ := h x List.mem_cons_self
+    unfold srcVertices
+    rw [her]
+    simp only
+    rw [srcVertices_eq cf f xs (fun b hb => h b (List.mem_cons_of_mem _ hb))]
+    simp [hsrc]
+
+section candidates
+variable {c : Config α} {g : List α} {source target : Nat} {fwd rev : SState α}
+
+/-- a forward backtrack is a walk in graph orientation from the origin, passes the loop test, and
+consists of tree entries -/
+theorem fwd_backtrack_walk (T : Trees c g source target fwd rev) {v fuel : Nat}
+    {r : List (Branch α)} (h : backtrack source v fwd.sol fuel = .ok r) :
+    GWalk c.edges source (r.map (·.edge)) v ∧ routeContainsLoop c.fwd r = .ok false ∧
+    ∀ b ∈ r, ∃ u, fwd.sol u = some b := by
+  have hp := SearchTree.backtrack_sound h
+  have hex : ∀ b ∈ r, ∃ er, c.edges[b.edge]? = some er := by
+    intro b hb
+    obtain ⟨u, _, hu⟩ := SearchTree.pathTo_mem hp b hb
+    exact T.fwd_edges u b hu
+  have hw := SearchRoute.pathTo_walk (ok := fun _ => true) T.fwd_inv (fun _ _ _ => rfl) hp
+  refine ⟨gwalk_of_fwd_walk c hw ?_, ?_, ?_⟩
+  · intro e he
+    obtain ⟨b, hb, rfl⟩ := List.mem_map.1 he
+    exact hex b hb
+  · have hsv : srcVertices c.fwd r = .ok (r.map (·.terminal)) := by
+      apply srcVertices_eq
+      intro b hb
+      obtain ⟨er, her⟩ := hex b hb
+      refine ⟨er, her, ?_⟩
+      obtain ⟨u, _, hu⟩ := SearchTree.pathTo_mem hp b hb
+      obtain ⟨_, hterm, _⟩ := T.fwd_inv.entry u b hu
+      rw [← hterm, (fwd_termV c her).1]
+    unfold routeContainsLoop
+    rw [hsv]
+    simp only [Except.ok.injEq]
+    exact (hasDup_false_iff _).2 (pathTo_terminals_nodup T.fwd_inv hp)
+  · intro b hb
+    obtain ⟨u, _, hu⟩ := SearchTree.pathTo_mem hp b hb
+    exact ⟨u, hu⟩
+
+/-- **every candidate is a contiguous origin → destination walk in graph orientation**: forward
+half by the forward tree, reverse half by the reverse tree read backwards, junction at the
+intersection vertex; its second half is the forward re-accumulation from the first half's last
+edge and state -/
+theorem svCandidate_walk (T : Trees c g source target fwd rev) {v : Nat} {this : List (Branch α)}
+    (h : svCandidate c.fwd source target fwd rev v = .ok this) :
+    GWalk c.edges source (this.map (·.edge)) target ∧
+    ∃ fwdRoute revRoute, this = fwdRoute ++ revRoute ∧
+      backtrack source v fwd.sol (fwd.solSize + 1) = .ok fwdRoute ∧
+      GWalk c.edges source (fwdRoute.map (·.edge)) v ∧
+      GWalk c.edges v (revRoute.map (·.edge)) target ∧
+      (∀ b ∈ fwdRoute, ∃ u, fwd.sol u = some b) ∧
+      Reaccumulated c.fwd (lastEdge fwdRoute) (lastState c.fwd fwdRoute) revRoute := by
+  obtain ⟨fwdRoute, revBack, revRoute, hf, hr, rfl, hids, hre⟩ := svCandidate_spec h
+  obtain ⟨hwF, _, hentF⟩ := fwd_backtrack_walk T hf
+  have hp := SearchTree.backtrack_sound hr
+  have hex : ∀ e ∈ revBack.map (·.edge), ∃ er, c.edges[e]? = some er := by
+    intro e he
+    obtain ⟨b, hb, rfl⟩ := List.mem_map.1 he
+    obtain ⟨u, _, hu⟩ := SearchTree.pathTo_mem hp b hb
+    exact T.rev_edges u b hu
+  have hw := SearchRoute.pathTo_walk (ok := fun _ => true) T.rev_inv (fun _ _ _ => rfl) hp
+  have hwR := gwalk_of_rev_walk c g hw hex
+  rw [← hids] at hwR
+  refine ⟨?_, fwdRoute, revRoute, rfl, hf, hwF, hwR, hentF, hre⟩
+  rw [List.map_append]
+  exact GWalk.append hwF hwR
+
+end candidates
+
+/-! ### `singleVia`, inverted -/
+
+theorem singleVia_ok {c : Config α} {g : List α}
+    {sim : List Nat → List Nat → Except ErrKind Bool} {term : KspTerm} {source target k : Nat}
+    {fs rs pops : List Nat} {r : AlgResult α}
+    (h : singleVia c g sim term source target k fs rs pops = .ok r) :
+    ∃ fres rres tsp sol it,
+      runVertexOriented c.fwd.inst source (some target) fs = .ok fres ∧
+      runVertexOriented (c.rev g).inst target (some source) rs = .ok rres ∧
+      backtrack source target fres.final.sol (fres.final.solSize + 1) = .ok tsp ∧
+      svLoop c.fwd sim term k source target fres.final rres.final pops
+        (interQueue c.nV fres.final.sol rres.final.sol) [tsp] 0 = .ok (sol, it) ∧
+      r = { trees := [fres.final.sol, rres.final.sol], routes := sol.take k,
+            iterations := fres.final.iters + rres.final.iters + it } := by
+  unfold singleVia at h
+  simp only at h
+  split at h
+  · cases h
+  · rename_i fres hfres
+    split at h
+    · cases h
+    · rename_i rres hrres
+      simp only [List.length_singleton, bne_self_eq_false, Bool.false_eq_true, if_false] at h
+      split at h
+      · cases h
+      · rename_i tsp htsp
+        split at h
+        · cases h
+        · rename_i sol it hloop
+          cases h
+          exact ⟨fres, rres, tsp, sol, it, hfres, hrres, htsp, hloop, rfl⟩
+
+/-- the tsp is the route the underlying forward run returned -/
+theorem tsp_eq_route {I : Inst α} {source target : Nat} {fs : List Nat} {fres : SearchResult α}
+    (h : runVertexOriented I source (some target) fs = .ok fres) {tsp : List (Branch α)}
+    (ht : backtrack source target fres.final.sol (fres.final.solSize + 1) = .ok tsp) :
+    fres.route = some tsp := by
+  obtain ⟨_, route, hr, hbt⟩ := SearchRoute.runVertexOriented_some h
+  rw [ht] at hbt
+  cases hbt
+  exact hr
+
+/-! ### where an error can come from -/
+
+theorem rejectedBy_error {sim : List Nat → List Nat → Except ErrKind Bool}
+    {this : List (Branch α)} {e : ErrKind} :
+    ∀ {sol : List (List (Branch α))}, rejectedBy sim this sol = .error e →
+      ∃ a b, sim a b = .error e
+  | [], h => by cases h
+  | s :: rest, h => by
+    unfold rejectedBy at h
+    split at h
+    · rename_i k hk; cases h; exact ⟨_, _, hk⟩
+    · split at h
+      · cases h
+      · exact rejectedBy_error h
+
+theorem retraverse_error {cf : Config α} {e : ErrKind} :
+    ∀ {es : List Nat} {prev : Option Nat} {st : List α}, retraverse cf es prev st = .error e →
+      ∃ e' prev' st', edgeTraversal cf e' prev' st' = .error e
+  | [], _, _, h => by cases h
+  | x :: xs, prev, st, h => by
+    unfold retraverse at h
+    split at h
+    · rename_i k hk; cases h; exact ⟨_, _, _, hk⟩
+    · split at h
+      · rename_i k hk; cases h; exact retraverse_error hk
+      · cases h
+
+theorem mem_interQueue {nV : Nat} {f r : Nat → Option (Branch α)} {p : Nat × α}
+    (h : p ∈ interQueue nV f r) : (f p.1).isSome ∧ (r p.1).isSome := by
+  unfold interQueue at h
+  obtain ⟨v, _, hv⟩ := List.mem_filterMap.1 h
+  split at hv
+  · cases hv
+  · split at hv
+    · cases hv
+    · split at hv
+      · rename_i _ fb hfb _ _ _ hrv
+        cases hv
+        exact ⟨by simp [hfb], hrv⟩
+      · cases hv
+
+theorem srcVertices_total (cf : Config α) (r : List (Branch α))
+    (h : ∀ b ∈ r, ∃ er, cf.edges[b.edge]? = some er) : ∃ vs, srcVertices cf r = .ok vs := by
+  refine ⟨_, srcVertices_eq cf (fun b => match cf.edges[b.edge]? with
+    | some er => er.src | none => 0) r ?_⟩
+  intro b hb
+  obtain ⟨er, her⟩ := h b hb
+  exact ⟨er, her, by simp [her]⟩
+
+section errors
+variable {c : Config α} {g : List α} {source target : Nat} {fwd rev : SState α}
+
+/-- for an intersection vertex both backtracks succeed; a candidate fails only inside the forward
+re-traversal of the reverse half -/
+theorem svCandidate_error (T : Trees c g source target fwd rev) {v : Nat}
+    (hvf : (fwd.sol v).isSome) (hvr : (rev.sol v).isSome) {e : ErrKind}
+    (h : svCandidate c.fwd source target fwd rev v = .error e) :
+    ∃ e' prev st, edgeTraversal c.fwd e' prev st = .error e := by
+  obtain ⟨fr, _, hfr⟩ := SearchTree.backtrack_ok T.fwd_inv (t := v) (Or.inr hvf)
+  obtain ⟨rb, _, hrb⟩ := SearchTree.backtrack_ok T.rev_inv (t := v) (Or.inr hvr)
+  unfold svCandidate at h
+  rw [hfr, hrb] at h
+  simp only at h
+  split at h
+  · rename_i k hk
+    cases h
+    unfold reorient at hk
+    split at hk <;> exact retraverse_error hk
+  · cases h
+
+/-- the loop test never fails on a candidate -/
+theorem candidate_loop_test_total (T : Trees c g source target fwd rev) {v : Nat}
+    {this : List (Branch α)} (h : svCandidate c.fwd source target fwd rev v = .ok this) :
+    ∃ b, routeContainsLoop c.fwd this = .ok b := by
+  obtain ⟨_, fr, rr, rfl, _, _, _, hent, hre⟩ := svCandidate_walk T h
+  have hex : ∀ b ∈ fr ++ rr, ∃ er, c.fwd.edges[b.edge]? = some er := by
+    intro b hb
+    rcases List.mem_append.1 hb with hb | hb
+    · obtain ⟨u, hu⟩ := hent b hb
+      exact T.fwd_edges u b hu
+    · exact hre.edges_exist b hb
+  obtain ⟨vs, hvs⟩ := srcVertices_total c.fwd _ hex
+  exact ⟨hasDup vs, by simp [routeContainsLoop, hvs]⟩
+
+variable {sim : List Nat → List Nat → Except ErrKind Bool} {term : KspTerm} {k : Nat}
+
+theorem svLoop_error (T : Trees c g source target fwd rev) :
+    ∀ (pops : List Nat) (queue : List (Nat × α)) (sol : List (List (Branch α))) (it : Nat)
+      (e : ErrKind), (∀ p ∈ queue, (fwd.sol p.1).isSome ∧ (rev.sol p.1).isSome) →
+      svLoop c.fwd sim term k source target fwd rev pops queue sol it = .error e →
+      e = .scheduleExhausted ∨ e = .badSchedule ∨
+      (∃ e' prev st, edgeTraversal c.fwd e' prev st = .error e) ∨ (∃ a b, sim a b = .error e) := by
+  intro pops
+  induction pops with
+  | nil =>
+    intro queue sol it e _ h
+    unfold svLoop at h
+    split at h
+    · cases h
+    · split at h
+      · cases h
+      · cases h; exact Or.inl rfl
+  | cons v rest ih =>
+    intro queue sol it e hq h
+    unfold svLoop at h
+    split at h
+    · cases h
+    · split at h
+      · cases h
+      · simp only at h
+        split at h
+        · cases h; exact Or.inr (Or.inl rfl)
+        · rename_i hpop
+          obtain ⟨p, hp, hpv⟩ := SearchTree.popOk_mem (q := queue) (v := v) (by simpa using hpop)
+          have hv := hq p hp
+          rw [hpv] at hv
+          split at h
+          · rename_i k' hk'
+            cases h
+            exact Or.inr (Or.inr (Or.inl (svCandidate_error T hv.1 hv.2 hk')))
+          · rename_i this hcand
+            obtain ⟨bl, hbl⟩ := candidate_loop_test_total T hcand
+            rw [hbl] at h
+            simp only at h
+            split at h
+            · rename_i k' hk'
+              cases h
+              exact Or.inr (Or.inr (Or.inr (rejectedBy_error hk')))
+            · exact ih _ _ _ e (fun p hp => hq p (List.mem_filter.1 hp).1) h
+
+end errors
+
+/-- **which failures propagate**: with consistent adjacency and distinct origin and destination,
+`single_via_paths_algorithm::run` fails only with (1) the error of the forward search, (2) the
+error of the reverse search, (3) an error of a forward re-traversal inside `reorient_reverse_route`,
+(4) an error of the similarity function — or the replay was not one the queue could produce.
+Backtracking and the loop test never fail. -/
+theorem singleVia_error {c : Config α} {g : List α} (hf : c.fwd.AdjConsistent)
+    (hr : (c.rev g).AdjConsistent) {sim : List Nat → List Nat → Except ErrKind Bool}
+    {term : KspTerm} {source target k : Nat} (hts : target ≠ source) {fs rs pops : List Nat}
+    {e : ErrKind} (h : singleVia c g sim term source target k fs rs pops = .error e) :
+    runVertexOriented c.fwd.inst source (some target) fs = .error e ∨
+    ((∃ fres, runVertexOriented c.fwd.inst source (some target) fs = .ok fres) ∧
+      runVertexOriented (c.rev g).inst target (some source) rs = .error e) ∨
+    e = .scheduleExhausted ∨ e = .badSchedule ∨
+    (∃ e' prev st, edgeTraversal c.fwd e' prev st = .error e) ∨ (∃ a b, sim a b = .error e) := by
+  unfold singleVia at h
+  simp only at h
+  split at h
+  · rename_i k' hk'; cases h; exact Or.inl hk'
+  · rename_i fres hfres
+    split at h
+    · rename_i k' hk'; cases h; exact Or.inr (Or.inl ⟨⟨fres, hfres⟩, hk'⟩)
+    · rename_i rres hrres
+      have T := trees_of_runs c g hf hr hts hfres hrres
+      simp only [List.length_singleton, bne_self_eq_false, Bool.false_eq_true, if_false] at h
+      obtain ⟨tsp, _, htsp⟩ := SearchTree.backtrack_ok T.fwd_inv (t := target) (Or.inr T.target_entry)
+      rw [htsp] at h
+      simp only at h
+      split at h
+      · rename_i k' hk'
+        cases h
+        exact Or.inr (Or.inr (svLoop_error T _ _ _ _ _ (fun p hp => mem_interQueue hp) hk'))
+      · cases h
+
 end Ksp
 end Compass
